@@ -26,7 +26,8 @@ TInit == Init /\ l = 1 /\ skip = FALSE
 IsOp(op) == /\ l <= Len(Rec) /\ Rec[l].ev = "hue" /\ Rec[l].op = op
             /\ Rec[l].t \in FloatTypes /\ Rec[l].ty \in HueTypes
 
-(* an event is judged; a disagreement is reported and the next line is examined *)
+(* an event is judged; a disagreement is reported and the next line is examined.
+   The reason must stay short: TLC wraps printed tuples wider than 80 columns over several lines. *)
 Judge(op, ok, why) ==
   /\ IF ok THEN TRUE ELSE PrintT(<<"REJECT", l, why>>)
   /\ last' = <<op, Rec[l].t>> /\ l' = l + 1 /\ skip' = FALSE
@@ -40,19 +41,19 @@ TrSigned ==
   /\ IsOp("signed")
   /\ LET e == Rec[l]
      IN Judge("signed", Fin(e) /\ (AllInDomain(e) => SignedOK(e.t, In(e, 1), Out(e, 1))),
-              "signed normal form outside [-180,180] or not congruent to the stored angle")
+              "signed: range or congruence")
 
 TrUnsigned ==
   /\ IsOp("unsigned")
   /\ LET e == Rec[l]
      IN Judge("unsigned", Fin(e) /\ (AllInDomain(e) => UnsignedOK(e.t, In(e, 1), Out(e, 1))),
-              "unsigned normal form outside [0,360] or not congruent to the stored angle")
+              "unsigned: range or congruence")
 
 TrEq ==
   /\ IsOp("eq")
   /\ LET e == Rec[l]
      IN Judge("eq", Fin(e) /\ (AllInDomain(e) => EqOK(e.t, In(e, 1), In(e, 2), e.n)),
-              "equality disagrees with congruence modulo 360")
+              "eq: disagrees with congruence mod 360")
 
 (* degrees/radians: the pair (deg, rad) must be consistent, and deg must be what the mode says *)
 TrRadians ==
@@ -65,37 +66,37 @@ TrRadians ==
                    [] e.m = "from" -> DyEq(x, rad)
                    [] OTHER -> FALSE
      IN Judge("radians", Fin(e) /\ link /\ RadOK(e.t, deg, rad),
-              "degree and radian accessors are inconsistent")
+              "radians: inconsistent with degrees")
 
 TrCartesian ==
   /\ IsOp("cartesian")
   /\ LET e == Rec[l]
      IN Judge("cartesian", Fin(e) /\ CartOK(e.t, In(e, 1), In(e, 2), Out(e, 2), Out(e, 3)),
-              "cartesian round trip does not preserve the direction / is not a unit vector")
+              "cartesian: direction or unit length")
 
 TrToU8 ==
   /\ IsOp("to_u8")
   /\ LET e == Rec[l]
      IN Judge("to_u8", Fin(e) /\ (AllInDomain(e) => ToU8OK(e.t, In(e, 1), e.n)),
-              "8-bit code is not round(r*256/360) mod 256")
+              "to_u8: not round(r*256/360) mod 256")
 
 TrFromU8 ==
   /\ IsOp("from_u8")
   /\ LET e == Rec[l]
      IN Judge("from_u8", Fin(e) /\ FromU8OK(e.k, Out(e, 1)) /\ e.n = e.k,
-              "8-bit hue is not k*360/256 or does not convert back to itself")
+              "from_u8: not k*360/256 or no round trip")
 
 TrAdd ==
   /\ IsOp("add")
   /\ LET e == Rec[l]
      IN Judge("add", Fin(e) /\ (AllInDomain(e) => AddOK(e.t, In(e, 1), In(e, 2), Out(e, 1))),
-              "sum of hues is not congruent to the exact sum")
+              "add: not congruent to the exact sum")
 
 TrSub ==
   /\ IsOp("sub")
   /\ LET e == Rec[l]
      IN Judge("sub", Fin(e) /\ (AllInDomain(e) => SubOK(e.t, In(e, 1), In(e, 2), Out(e, 1))),
-              "difference of hues is not congruent to the exact difference")
+              "sub: not congruent to the exact difference")
 
 (* a reset line (not needed by stateless recordings, accepted for uniformity) *)
 TReset == /\ l <= Len(Rec) /\ Rec[l].ev = "reset"
